@@ -1086,7 +1086,11 @@ class SQLTranslator(ASTTranslator):
             func_monad = func_node.monad
             translator.dispatch(arg)
             query_set_monad = arg.monad
-            return func_monad(query_set_monad)
+            kwargs = {}
+            for kw in node.keywords:
+                translator.dispatch(kw.value)
+                kwargs[kw.arg] = kw.value.monad
+            return func_monad(query_set_monad, **kwargs)
         if not isinstance(arg, ast.Lambda):
             return
         lambda_expr = arg
